@@ -191,6 +191,10 @@ def make_cfg(seed, i, control=False):
     if fam == "control":
         up["init.random_initial_directions"] = True
         cfg["args"]["maxfun"] = 20
+    if fam in ("default", "bounded", "scaled", "regression", "averaged") and r() < 0.25:
+        # budgets smaller than the initial set (the run ends inside the initialisation): nothing random may be switched on by that
+        npt_ = cfg["args"].get("npt") or n + 1
+        cfg["args"]["maxfun"] = int(rng.integers(1, npt_ + 1))
     if r() < 0.2 and fam != "regularised":
         up["logging.save_diagnostic_info"] = True
         up["logging.save_poisedness"] = False
